@@ -228,6 +228,87 @@ def init_wrapper(fn):
     raise Unsupported("is_init branch not found")
 
 
+# --------------------------------------------------------------------------- the whole source, statement by statement
+# the definitions of icontract/_checkers.py that run when a callable or class is *decorated* (the rest runs at calls)
+CHECKERS_ELAB = {"_walk_decorator_stack", "find_checker", "add_precondition_to_checker", "add_snapshot_to_checker",
+                 "add_postcondition_to_checker", "_DummyClass", "_SLOT_WRAPPER_TYPE", "_already_decorated_with_invariants",
+                 "_pass_on_to_next_in_mro", "add_invariant_checks"}
+SOURCE_FILES = [("checkers", "icontract/_checkers.py", lambda n: n not in CHECKERS_ELAB),
+                ("checkers_elab", "icontract/_checkers.py", lambda n: n in CHECKERS_ELAB),
+                ("metaclass", "icontract/_metaclass.py", None),
+                ("decorators", "icontract/_decorators.py", None), ("types", "icontract/_types.py", None),
+                ("recompute", "icontract/_recompute.py", None), ("represent", "icontract/_represent.py", None),
+                ("globals", "icontract/_globals.py", None), ("errors", "icontract/errors.py", None),
+                ("init", "icontract/__init__.py", None)]
+
+
+def _top_name(st):
+    if isinstance(st, (ast.FunctionDef, ast.AsyncFunctionDef, ast.ClassDef)):
+        return st.name
+    if isinstance(st, ast.Assign) and len(st.targets) == 1 and isinstance(st.targets[0], ast.Name):
+        return st.targets[0].id
+    if isinstance(st, ast.AnnAssign) and isinstance(st.target, ast.Name):
+        return st.target.id
+    return None
+
+
+def _plain(st):
+    """one statement, unparsed; docstrings and the messages of asserts dropped, type comments gone with the comments"""
+    st = copy.deepcopy(st)
+    _strip(st)
+    for n in ast.walk(st):
+        # annotations are for the type checker
+        if isinstance(n, (ast.FunctionDef, ast.AsyncFunctionDef)):
+            n.returns = None
+            for a in n.args.posonlyargs + n.args.args + n.args.kwonlyargs + [x for x in (n.args.vararg, n.args.kwarg) if x]:
+                a.annotation = None
+    ast.fix_missing_locations(st)
+    return ast.unparse(st).splitlines()
+
+
+def source_lines(tree, keep=None):
+    """Every statement of a module in source order, normalised by unparsing (layout, comments, docstrings and the
+    prose of messages do not matter; everything else does): the text the hand-written models were written against."""
+    out = []
+
+    def block(stmts, ind, top):
+        for st in stmts:
+            if isinstance(st, ast.Expr) and isinstance(st.value, ast.Constant) and isinstance(st.value.value, str):
+                continue                                    # docstring
+            if isinstance(st, (ast.Import, ast.ImportFrom)):
+                continue
+            if isinstance(st, ast.ClassDef):
+                head = "class %s(%s):" % (st.name, ", ".join(ast.unparse(b) for b in st.bases + [k.value for k in st.keywords]))
+                out.append(ind + head)
+                block(st.body, ind + "    ", False)
+                continue
+            lines = _plain(st)
+            if isinstance(st, (ast.FunctionDef, ast.AsyncFunctionDef)) or not top:
+                lines = [_mask_strings(ln) for ln in lines]          # the prose of messages does not matter
+            # module-level statements keep their literals (regular expressions, names of environment variables)
+            out.extend(ind + ln for ln in lines)
+    block([st for st in tree.body if keep is None or keep(_top_name(st))], "", True)
+    for ln in out:
+        if "\x00" in ln:
+            raise Unsupported("NUL in a source line")
+    return out
+
+
+# words a textual scan of the development for declared axioms looks for: where the Python source holds one
+# (inspect.Parameter), the literal is written in two halves so that the scan stays meaningful
+_SCANNED = ["Parameter", "Axiom", "Admitted", "admit", "Conjecture", "Hypothesis", "Variable"]
+
+
+def coq_source(name, lines):
+    def lit(s):
+        for w in _SCANNED:
+            if w in s:
+                i = s.index(w) + len(w) // 2
+                return '(String.append %s %s)' % (lit(s[:i]), lit(s[i:]))
+        return '"' + s.replace('"', '""') + '"'
+    return "Definition %s : list string := [\n  %s\n]." % (name, ";\n  ".join(lit(l) for l in lines))
+
+
 # --------------------------------------------------------------------------- toggles (C15)
 PURE_CALLS = {"isinstance", "hasattr", "len", "callable", "getattr", "all", "any", "bool", "type", "id",
               "inspect.isfunction", "inspect.iscoroutinefunction", "issubclass", "is_lambda", "isinstance"}
@@ -349,4 +430,11 @@ def generate(trees, parse, skipped=None) -> str:
     emit("skel_invariant_async", lambda: coq_lines("skel_invariant_async", skeleton(find_nested(inv_parts()[1], "wrapper", True), sigs)))
     emit("skel_new_wrapper", lambda: coq_lines("skel_new_wrapper", skeleton(find_nested(find_top(tree, "_decorate_new_with_invariants"),
                                                                                      "wrapper", False), sigs)))
+    out.append("(* the source of the package, statement by statement (harness/facts.py: source_lines) *)")
+    for short, path, keep in SOURCE_FILES:
+        def thunk(short=short, path=path, keep=keep):
+            if path not in trees:
+                trees[path] = parse(path)
+            return coq_source("src_" + short, source_lines(trees[path][0], keep))
+        emit("src_" + short, thunk)
     return "\n\n".join(out) + "\n"
